@@ -1,7 +1,7 @@
 import EdpVerif.Basic.Bytes
 import EdpVerif.Basic.Utf8
 import EdpVerif.Spec.Handshake
-import EdpVerif.Generated.Misc
+import EdpVerif.Generated.MiscC04
 /-
 Model of crates/edp_client/src/{handshake.rs, state_machine.rs, digest.rs, flags.rs} — function by function.
 (`Spec.Handshake` is imported only for the API vocabulary `Op`; nothing below uses a Spec layout or parser.)
